@@ -36,7 +36,7 @@ func (propC09) ID() string { return "C09" }
 func c09Cfg() *DeclCfg {
 	return &DeclCfg{
 		Kinds: []string{"bool", "bool", "int", "int64", "uint", "float64", "string", "string", "duration", "[]int", "[]string", "map[string]int", "map[string]string",
-			"*int", "*bool", "func()", "func(string)", "func(int) error", "func() error", "um", "vv", "[]bool"},
+			"*int", "*bool", "func()", "func(string)", "func(int) error", "func() error", "um", "vv", "[]bool", "int8", "uint8", "uint16", "*um"},
 		MinOpts: 0, MaxOpts: 3, MaxGroups: 1, MaxSub: 1, MaxCmds: 4, MaxDepth: 4, Exec: true,
 		Env: true, Defaults: true, Required: true, Choices: true, Optional: true, Hidden: true, Pos: true, Namespaces: true, Aliases: true, Base: true, MultiByte: true,
 		ParserOpts: []uint{0, optHelpFlag, optHelpFlag | optPassDoubleDash, optHelpFlag | optPrintErrors | optPassDoubleDash, optHelpFlag | optIgnoreUnknown,
@@ -430,6 +430,15 @@ func planTouchesGroup(d *DeclSpec, p *Plan, group string) bool {
 	return false
 }
 
+func argvHas(argv []string, text string) bool {
+	for _, a := range argv {
+		if a == text || strings.HasSuffix(a, text) {
+			return true
+		}
+	}
+	return false
+}
+
 func planMentions(p *Plan, opt string) bool {
 	for _, t := range p.Toks {
 		if t.Opt == opt || t.Role == "cluster" {
@@ -509,8 +518,12 @@ func faultStillExpected(d *DeclSpec, p *Plan, f ArgFault, argv []string) bool {
 		if f.Expect == "invalid choice" {
 			return len(oi.O.Choices) > 0
 		}
+		if strings.HasSuffix(f.Text, "300") || strings.HasSuffix(f.Text, "256") || strings.HasSuffix(f.Text, "70000") {
+			// a well-formed number: a fault only where the type cannot hold it
+			return oi.O.Base == 0 && (oi.O.Kind == "int8" || oi.O.Kind == "uint8" || oi.O.Kind == "uint16") && argvHas(argv, f.Text)
+		}
 		b := baseKind(oi.O.Kind)
-		return strings.Contains(b, "int") || strings.Contains(b, "float") || b == "duration" || b == "um"
+		return strings.Contains(b, "int") || strings.Contains(b, "float") || b == "duration" || b == "um" || (b == "vv" && f.Expect == "expected argument")
 	case "delete-arg":
 		oi, ok := ois[f.Opt]
 		return ok && onChain(oi) && !isBoolFlag(oi.O.Kind) && !oi.O.Optional
